@@ -22,6 +22,7 @@ import (
 	"os"
 	"slices"
 	"strings"
+	"sync/atomic"
 	"testing"
 	"time"
 
@@ -300,6 +301,20 @@ func (w *c40xWorld) pointers(from, to uint64) string {
 	return sb.String()
 }
 
+func (w *c40xWorld) mapsInfo(from, to uint32) string {
+	f := w.ts.fm
+	var sb strings.Builder
+	for m := from; m <= to; m++ {
+		n, id, err := f.getLastBlockOfMap(m)
+		if err != nil {
+			fmt.Fprintf(&sb, " map%d:-", m)
+		} else {
+			fmt.Fprintf(&sb, " map%d:last#%d/%x", m, n, id[:3])
+		}
+	}
+	return sb.String()
+}
+
 // checkIndexed compares the matcher with the model on the block range the index
 // reports as fully indexed.
 func (w *c40xWorld) checkIndexed(st *vs.S, nchecks int) {
@@ -313,6 +328,14 @@ func (w *c40xWorld) checkIndexed(st *vs.S, nchecks int) {
 		}
 		return
 	}
+	if f.disabled {
+		// The indexer hit an error and switched itself off (disableForError): matcher backends then
+		// report no indexed range and eth/filters searches unindexed, so stale index data is never
+		// served. Not a C40 matter; counted so that the evidence shows how often it happens.
+		c40xGaveUp.Add(1)
+		st.Note("indexer disabled itself after an error in some scenario (preset %s, history %d, last op %s)", w.preset.name, w.history, w.lastOp)
+		return
+	}
 	if !r.hasIndexedBlocks() {
 		return
 	}
@@ -322,6 +345,21 @@ func (w *c40xWorld) checkIndexed(st *vs.S, nchecks int) {
 			return
 		}
 		last--
+	}
+	// known finding (only if listed): the first "indexed" block begins in an unindexed map
+	// (see c40ClassTailPartial in the eth/filters harness)
+	if first > 0 && vs.Known("TestVerifC40Index", "first-indexed-block-partially-unindexed") {
+		f.indexLock.RLock()
+		p, err := f.getBlockLvPointer(first)
+		f.indexLock.RUnlock()
+		if err == nil && uint32(p>>f.logValuesPerMap) < r.maps.First() {
+			st.Excluded()
+			w.tracef("first indexed block %d begins in unindexed map %d (known finding); skipped", first, p>>f.logValuesPerMap)
+			if first == last {
+				return
+			}
+			first++
+		}
 	}
 	canon := w.canon()
 	if last >= uint64(len(canon)) {
@@ -373,8 +411,9 @@ func (w *c40xWorld) checkIndexed(st *vs.S, nchecks int) {
 		got, err := GetPotentialMatches(context.Background(), mb, a, b, crit.addrs, crit.topics)
 		mb.Close()
 		fail := func(msg string) {
-			w.rt.Fatalf("GetPotentialMatches(blocks [%d,%d], %s) after %s: %s\n  index: %s\n  block pointers:%s%s",
-				a, b, crit, w.lastOp, msg, w.describeIndex(), w.pointers(a, min(b+1, a+24)), w.traceText())
+			fm := r.maps.First()
+			w.rt.Fatalf("GetPotentialMatches(blocks [%d,%d], %s) after %s: %s\n  index: %s\n  block pointers:%s\n  last blocks of maps:%s%s",
+				a, b, crit, w.lastOp, msg, w.describeIndex(), w.pointers(max(a, 2)-2, min(b+1, a+24)), w.mapsInfo(max(fm, 3)-3, fm+3), w.traceText())
 		}
 		if err != nil {
 			fail(fmt.Sprintf("error inside the indexed range: %v", err))
@@ -482,6 +521,18 @@ func (w *c40xWorld) drawHistory() uint64 {
 func (w *c40xWorld) setHistory(history uint64, disabled bool) {
 	w.history, w.disabled = history, disabled
 	w.ts.setHistory(history, disabled)
+	if os.Getenv("VERIF_C40_RANGELOG") != "" { // triage aid: print every change of the indexed range (indexer goroutine)
+		f := w.ts.fm
+		var last string
+		f.testProcessEventsHook = func() {
+			r := f.indexedRange
+			cur := fmt.Sprintf("maps=[%d,%d) partial=%d blocks=[%d,%d) headIndexed=%v temp=%v target=%d", r.maps.First(), r.maps.AfterLast(), r.tailPartialEpoch, r.blocks.First(), r.blocks.AfterLast(), r.headIndexed, f.hasTempRange, f.targetView.HeadNumber())
+			if cur != last {
+				last = cur
+				fmt.Fprintln(os.Stderr, "RANGE", cur)
+			}
+		}
+	}
 	w.tracef("indexer (re)started at head %d, history %d, disabled %v", len(w.canon())-1, history, disabled)
 }
 
@@ -568,9 +619,12 @@ func c40xScenario(t *testing.T, rt *rapid.T, st *vs.S) {
 			w.waitIdle()
 			w.tracef("idle: %s", w.describeIndex())
 			w.checkIndexed(st, rapid.IntRange(1, 4).Draw(rt, "nchecks"))
+			w.reorged = false
 		}
 	}
 }
+
+var c40xGaveUp atomic.Int64
 
 func TestVerifC40Index(t *testing.T) {
 	if os.Getenv("VERIF_C40_LOG") != "" { // triage aid: geth's own log output (warn and above) on stderr
@@ -578,6 +632,7 @@ func TestVerifC40Index(t *testing.T) {
 	}
 	st := vs.New("C40", t)
 	vs.Check(t, 1, func(rt *rapid.T) { c40xScenario(t, rt, st) })
+	st.Note("quiescent points at which the indexer had disabled itself after an error: %d", c40xGaveUp.Load())
 }
 
 func c40xCountLogs(rs types.Receipts) int {
